@@ -24,6 +24,7 @@ package main
 import (
 	"go/token"
 	"go/types"
+	"strings"
 
 	"golang.org/x/tools/go/ssa"
 )
@@ -349,309 +350,477 @@ func ccFilter(l *scanLoop, m *ccMatcher, apps []*ssa.Call, want bool) (bool, str
 	return true, ""
 }
 
-func containerRules(c *Ctx, rule string) {
+func containerRules(c *Ctx, rule string, fam string) {
 	r, sx := c.R, c.Sx()
 	n := 0
+	v6on, v4on := strings.Contains(fam, "6"), strings.Contains(fam, "4")
 	und := func(name, why string) { r.Undecided(rule, "container contract: "+name, "-", why) }
 	key := func(name, s string) string { return "container contract: " + name + ": " + s }
 
-	// ---- v6 Get
-	if f := ccFind(c, v6pkgPath, "Options", "Get"); f == nil {
-		und("dhcpv6.Options.Get", "not found")
-	} else {
-		n++
-		name := "dhcpv6.Options.Get"
-		ls := findScanLoops(f)
-		if len(ls) != 1 || !ccIsRecvColl(f, ls[0].coll) {
-			und(name, "not one ascending scan of the receiver (idiom not recognised)")
+	if v6on {
+		// ---- v6 Get
+		if f := ccFind(c, v6pkgPath, "Options", "Get"); f == nil {
+			und("dhcpv6.Options.Get", "not found")
 		} else {
-			l := ls[0]
-			el := l.elems(sx)
-			m := &ccMatcher{el, func(v ssa.Value) bool { return v == ssa.Value(f.Params[1]) }}
-			acc, apps := l.filterAccumulator(el)
-			if acc == nil {
-				und(name, "no accumulator that starts empty and grows by append(acc, element)")
+			n++
+			name := "dhcpv6.Options.Get"
+			ls := findScanLoops(f)
+			if len(ls) != 1 || !ccIsRecvColl(f, ls[0].coll) {
+				und(name, "not one ascending scan of the receiver (idiom not recognised)")
 			} else {
-				ok, why := ccFilter(l, m, apps, true)
-				r.Check(ok, rule, key(name, "collects every element whose Code() equals the argument, and only those, in order"), c.P.pos(f.Pos()), "scan loop + split-graph atoms", why)
-				okRet := true
+				l := ls[0]
+				el := l.elems(sx)
+				m := &ccMatcher{el, func(v ssa.Value) bool { return v == ssa.Value(f.Params[1]) }}
+				acc, apps := l.filterAccumulator(el)
+				if acc == nil {
+					und(name, "no accumulator that starts empty and grows by append(acc, element)")
+				} else {
+					ok, why := ccFilter(l, m, apps, true)
+					r.Check(ok, rule, key(name, "collects every element whose Code() equals the argument, and only those, in order"), c.P.pos(f.Pos()), "scan loop + split-graph atoms", why)
+					okRet := true
+					for _, rt := range returnsOf(f) {
+						okRet = okRet && len(rt.Results) == 1 && rt.Results[0] == ssa.Value(acc) && (rt.Block() == l.done || l.done.Dominates(rt.Block()))
+					}
+					r.Check(okRet, rule, key(name, "returns the collected list after the scan"), c.P.pos(f.Pos()), "every return yields the accumulator, after the loop", "a return does not yield the collected list")
+				}
+			}
+		}
+
+		// ---- v6 GetOne
+		if f := ccFind(c, v6pkgPath, "Options", "GetOne"); f == nil {
+			und("dhcpv6.Options.GetOne", "not found")
+		} else {
+			n++
+			name := "dhcpv6.Options.GetOne"
+			ls := findScanLoops(f)
+			if len(ls) != 1 || !ccIsRecvColl(f, ls[0].coll) {
+				und(name, "not one ascending scan of the receiver (idiom not recognised)")
+			} else {
+				l := ls[0]
+				el := l.elems(sx)
+				m := &ccMatcher{el, func(v ssa.Value) bool { return v == ssa.Value(f.Params[1]) }}
+				// every side exit is a return of the scanned element, reached only under match=true; staying in the loop requires match=false
+				ok, why := true, ""
+				start := sNodeOf(l.hdr, l.body)
+				exits := l.sideExits()
+				if len(exits) == 0 {
+					ok, why = false, "no return inside the scan: the first matching element is not the one returned"
+				}
+				blocked := map[*ssa.BasicBlock]bool{}
+				for _, e := range exits {
+					rt, isRet := e.To.Instrs[len(e.To.Instrs)-1].(*ssa.Return)
+					if !isRet || len(rt.Results) != 1 || !el[rt.Results[0]] {
+						ok, why = false, "the scan is left without returning the element at hand"
+						continue
+					}
+					if !mustPassAtomsFrom(start, e.To, m.pol(true), map[*ssa.BasicBlock]bool{l.hdr: true}) {
+						ok, why = false, "an element is returned although its code differs from the argument"
+					}
+					blocked[e.To] = true
+				}
+				if ok && !mustPassAtomsFrom(start, l.hdr, m.pol(false), blocked) {
+					ok, why = false, "the scan continues past an element whose code equals the argument"
+				}
+				r.Check(ok, rule, key(name, "returns the first element whose Code() equals the argument"), c.P.pos(f.Pos()), "scan loop + split-graph atoms", why)
+				okNil := true
 				for _, rt := range returnsOf(f) {
-					okRet = okRet && len(rt.Results) == 1 && rt.Results[0] == ssa.Value(acc) && (rt.Block() == l.done || l.done.Dominates(rt.Block()))
-				}
-				r.Check(okRet, rule, key(name, "returns the collected list after the scan"), c.P.pos(f.Pos()), "every return yields the accumulator, after the loop", "a return does not yield the collected list")
-			}
-		}
-	}
-
-	// ---- v6 GetOne
-	if f := ccFind(c, v6pkgPath, "Options", "GetOne"); f == nil {
-		und("dhcpv6.Options.GetOne", "not found")
-	} else {
-		n++
-		name := "dhcpv6.Options.GetOne"
-		ls := findScanLoops(f)
-		if len(ls) != 1 || !ccIsRecvColl(f, ls[0].coll) {
-			und(name, "not one ascending scan of the receiver (idiom not recognised)")
-		} else {
-			l := ls[0]
-			el := l.elems(sx)
-			m := &ccMatcher{el, func(v ssa.Value) bool { return v == ssa.Value(f.Params[1]) }}
-			// every side exit is a return of the scanned element, reached only under match=true; staying in the loop requires match=false
-			ok, why := true, ""
-			start := sNodeOf(l.hdr, l.body)
-			exits := l.sideExits()
-			if len(exits) == 0 {
-				ok, why = false, "no return inside the scan: the first matching element is not the one returned"
-			}
-			blocked := map[*ssa.BasicBlock]bool{}
-			for _, e := range exits {
-				rt, isRet := e.To.Instrs[len(e.To.Instrs)-1].(*ssa.Return)
-				if !isRet || len(rt.Results) != 1 || !el[rt.Results[0]] {
-					ok, why = false, "the scan is left without returning the element at hand"
-					continue
-				}
-				if !mustPassAtomsFrom(start, e.To, m.pol(true), map[*ssa.BasicBlock]bool{l.hdr: true}) {
-					ok, why = false, "an element is returned although its code differs from the argument"
-				}
-				blocked[e.To] = true
-			}
-			if ok && !mustPassAtomsFrom(start, l.hdr, m.pol(false), blocked) {
-				ok, why = false, "the scan continues past an element whose code equals the argument"
-			}
-			r.Check(ok, rule, key(name, "returns the first element whose Code() equals the argument"), c.P.pos(f.Pos()), "scan loop + split-graph atoms", why)
-			okNil := true
-			for _, rt := range returnsOf(f) {
-				if l.done == rt.Block() || l.done.Dominates(rt.Block()) {
-					okNil = okNil && len(rt.Results) == 1 && isNilConst(rt.Results[0])
-				}
-			}
-			r.Check(okNil, rule, key(name, "returns nil when no element matches"), c.P.pos(f.Pos()), "return after the scan is the nil constant", "a non-nil value is returned although nothing matched")
-		}
-	}
-
-	// ---- v6 Add
-	var addFn *ssa.Function
-	if f := ccFind(c, v6pkgPath, "Options", "Add"); f == nil {
-		und("dhcpv6.Options.Add", "not found")
-	} else {
-		n++
-		addFn = f
-		name := "dhcpv6.Options.Add"
-		sts := ccStoresToRecv(f)
-		ok, why := len(sts) == 1, "not exactly one store to the receiver"
-		if ok {
-			st := sts[0]
-			cl, isCall := st.Val.(*ssa.Call)
-			var base, el ssa.Value
-			if isCall {
-				base, el = singleAppendElem(cl)
-			}
-			switch {
-			case base == nil:
-				ok, why = false, "the stored value is not append(list, option)"
-			case !ccIsRecvColl(f, base):
-				ok, why = false, "the list appended to is not the receiver's"
-			case el != ssa.Value(f.Params[1]):
-				ok, why = false, "the element appended is not the argument"
-			case !dominatesAllReturns(f, st.Block()):
-				ok, why = false, "Add can return without appending"
-			}
-		}
-		r.Check(ok, rule, key(name, "appends its argument at the end of the list on every path"), c.P.pos(f.Pos()), "*o = append(*o, option) dominates every return", why)
-	}
-
-	// ---- v6 Del
-	if f := ccFind(c, v6pkgPath, "Options", "Del"); f == nil {
-		und("dhcpv6.Options.Del", "not found")
-	} else {
-		n++
-		name := "dhcpv6.Options.Del"
-		ls := findScanLoops(f)
-		if len(ls) != 1 || !ccIsRecvColl(f, ls[0].coll) {
-			und(name, "not one ascending scan of the receiver (idiom not recognised)")
-		} else {
-			l := ls[0]
-			el := l.elems(sx)
-			m := &ccMatcher{el, func(v ssa.Value) bool { return v == ssa.Value(f.Params[1]) }}
-			acc, apps := l.filterAccumulator(el)
-			if acc == nil {
-				und(name, "no accumulator that starts empty and grows by append(acc, element)")
-			} else {
-				ok, why := ccFilter(l, m, apps, false)
-				r.Check(ok, rule, key(name, "keeps every element whose Code() differs from the argument, and only those, in order"), c.P.pos(f.Pos()), "scan loop + split-graph atoms", why)
-				sts := ccStoresToRecv(f)
-				okSt := len(sts) == 1 && sts[0].Val == ssa.Value(acc) && (sts[0].Block() == l.done || l.done.Dominates(sts[0].Block())) && dominatesAllReturns(f, sts[0].Block())
-				r.Check(okSt, rule, key(name, "the receiver becomes the filtered list"), c.P.pos(f.Pos()), "one store of the accumulator after the scan, dominating every return", "the filtered list is not (always) stored back")
-			}
-		}
-	}
-
-	// ---- v6 Update
-	if f := ccFind(c, v6pkgPath, "Options", "Update"); f == nil {
-		und("dhcpv6.Options.Update", "not found")
-	} else {
-		n++
-		name := "dhcpv6.Options.Update"
-		ls := findScanLoops(f)
-		if len(ls) != 1 || !ccIsRecvColl(f, ls[0].coll) {
-			und(name, "not one ascending scan of the receiver (idiom not recognised)")
-		} else {
-			l := ls[0]
-			el := l.elems(sx)
-			opt := ssa.Value(f.Params[1])
-			m := &ccMatcher{el, func(v ssa.Value) bool { x, ok := isCodeInvoke(v); return ok && x == opt }}
-			ok, why := true, ""
-			start := sNodeOf(l.hdr, l.body)
-			exits := l.sideExits()
-			if len(exits) == 0 {
-				ok, why = false, "the scan does not stop at the first option of the same code"
-			}
-			blocked := map[*ssa.BasicBlock]bool{}
-			cs := sx.Of(l.coll).String()
-			for _, e := range exits {
-				if _, isRet := e.To.Instrs[len(e.To.Instrs)-1].(*ssa.Return); !isRet {
-					ok, why = false, "the scan is left other than by returning"
-					continue
-				}
-				// the exit block stores the argument into coll[idx]
-				stored := false
-				for _, in := range e.To.Instrs {
-					if st, isSt := in.(*ssa.Store); isSt && st.Val == opt {
-						if ia, isIA := st.Addr.(*ssa.IndexAddr); isIA && ia.Index == l.idx && (ia.X == l.coll || sx.Of(ia.X).String() == cs) {
-							stored = true
-						}
+					if l.done == rt.Block() || l.done.Dominates(rt.Block()) {
+						okNil = okNil && len(rt.Results) == 1 && isNilConst(rt.Results[0])
 					}
 				}
-				if !stored {
-					ok, why = false, "the matching position is not overwritten with the argument"
-				}
-				if !mustPassAtomsFrom(start, e.To, m.pol(true), map[*ssa.BasicBlock]bool{l.hdr: true}) {
-					ok, why = false, "an element is replaced although its code differs from the argument's"
-				}
-				blocked[e.To] = true
+				r.Check(okNil, rule, key(name, "returns nil when no element matches"), c.P.pos(f.Pos()), "return after the scan is the nil constant", "a non-nil value is returned although nothing matched")
 			}
-			if ok && !mustPassAtomsFrom(start, l.hdr, m.pol(false), blocked) {
-				ok, why = false, "the scan continues past an element of the same code without replacing it"
+		}
+
+		// ---- v6 Add
+		var addFn *ssa.Function
+		if f := ccFind(c, v6pkgPath, "Options", "Add"); f == nil {
+			und("dhcpv6.Options.Add", "not found")
+		} else {
+			n++
+			addFn = f
+			name := "dhcpv6.Options.Add"
+			sts := ccStoresToRecv(f)
+			ok, why := len(sts) == 1, "not exactly one store to the receiver"
+			if ok {
+				st := sts[0]
+				cl, isCall := st.Val.(*ssa.Call)
+				var base, el ssa.Value
+				if isCall {
+					base, el = singleAppendElem(cl)
+				}
+				switch {
+				case base == nil:
+					ok, why = false, "the stored value is not append(list, option)"
+				case !ccIsRecvColl(f, base):
+					ok, why = false, "the list appended to is not the receiver's"
+				case el != ssa.Value(f.Params[1]):
+					ok, why = false, "the element appended is not the argument"
+				case !dominatesAllReturns(f, st.Block()):
+					ok, why = false, "Add can return without appending"
+				}
 			}
-			// no other element store inside the loop
-			for b := range l.loop {
-				for _, in := range b.Instrs {
-					if st, isSt := in.(*ssa.Store); isSt {
-						if _, isIA := st.Addr.(*ssa.IndexAddr); isIA {
-							if al, _, isLocal := addrPath(st.Addr); !isLocal || al == nil {
-								ok, why = false, "an element is written inside the scan"
+			r.Check(ok, rule, key(name, "appends its argument at the end of the list on every path"), c.P.pos(f.Pos()), "*o = append(*o, option) dominates every return", why)
+		}
+
+		// ---- v6 Del
+		if f := ccFind(c, v6pkgPath, "Options", "Del"); f == nil {
+			und("dhcpv6.Options.Del", "not found")
+		} else {
+			n++
+			name := "dhcpv6.Options.Del"
+			ls := findScanLoops(f)
+			if len(ls) != 1 || !ccIsRecvColl(f, ls[0].coll) {
+				und(name, "not one ascending scan of the receiver (idiom not recognised)")
+			} else {
+				l := ls[0]
+				el := l.elems(sx)
+				m := &ccMatcher{el, func(v ssa.Value) bool { return v == ssa.Value(f.Params[1]) }}
+				acc, apps := l.filterAccumulator(el)
+				if acc == nil {
+					und(name, "no accumulator that starts empty and grows by append(acc, element)")
+				} else {
+					ok, why := ccFilter(l, m, apps, false)
+					r.Check(ok, rule, key(name, "keeps every element whose Code() differs from the argument, and only those, in order"), c.P.pos(f.Pos()), "scan loop + split-graph atoms", why)
+					sts := ccStoresToRecv(f)
+					okSt := len(sts) == 1 && sts[0].Val == ssa.Value(acc) && (sts[0].Block() == l.done || l.done.Dominates(sts[0].Block())) && dominatesAllReturns(f, sts[0].Block())
+					r.Check(okSt, rule, key(name, "the receiver becomes the filtered list"), c.P.pos(f.Pos()), "one store of the accumulator after the scan, dominating every return", "the filtered list is not (always) stored back")
+				}
+			}
+		}
+
+		// ---- v6 Update
+		if f := ccFind(c, v6pkgPath, "Options", "Update"); f == nil {
+			und("dhcpv6.Options.Update", "not found")
+		} else {
+			n++
+			name := "dhcpv6.Options.Update"
+			ls := findScanLoops(f)
+			if len(ls) != 1 || !ccIsRecvColl(f, ls[0].coll) {
+				und(name, "not one ascending scan of the receiver (idiom not recognised)")
+			} else {
+				l := ls[0]
+				el := l.elems(sx)
+				opt := ssa.Value(f.Params[1])
+				m := &ccMatcher{el, func(v ssa.Value) bool { x, ok := isCodeInvoke(v); return ok && x == opt }}
+				ok, why := true, ""
+				start := sNodeOf(l.hdr, l.body)
+				exits := l.sideExits()
+				if len(exits) == 0 {
+					ok, why = false, "the scan does not stop at the first option of the same code"
+				}
+				blocked := map[*ssa.BasicBlock]bool{}
+				cs := sx.Of(l.coll).String()
+				for _, e := range exits {
+					if _, isRet := e.To.Instrs[len(e.To.Instrs)-1].(*ssa.Return); !isRet {
+						ok, why = false, "the scan is left other than by returning"
+						continue
+					}
+					// the exit block stores the argument into coll[idx]
+					stored := false
+					for _, in := range e.To.Instrs {
+						if st, isSt := in.(*ssa.Store); isSt && st.Val == opt {
+							if ia, isIA := st.Addr.(*ssa.IndexAddr); isIA && ia.Index == l.idx && (ia.X == l.coll || sx.Of(ia.X).String() == cs) {
+								stored = true
+							}
+						}
+					}
+					if !stored {
+						ok, why = false, "the matching position is not overwritten with the argument"
+					}
+					if !mustPassAtomsFrom(start, e.To, m.pol(true), map[*ssa.BasicBlock]bool{l.hdr: true}) {
+						ok, why = false, "an element is replaced although its code differs from the argument's"
+					}
+					blocked[e.To] = true
+				}
+				if ok && !mustPassAtomsFrom(start, l.hdr, m.pol(false), blocked) {
+					ok, why = false, "the scan continues past an element of the same code without replacing it"
+				}
+				// no other element store inside the loop
+				for b := range l.loop {
+					for _, in := range b.Instrs {
+						if st, isSt := in.(*ssa.Store); isSt {
+							if _, isIA := st.Addr.(*ssa.IndexAddr); isIA {
+								if al, _, isLocal := addrPath(st.Addr); !isLocal || al == nil {
+									ok, why = false, "an element is written inside the scan"
+								}
 							}
 						}
 					}
 				}
-			}
-			r.Check(ok, rule, key(name, "replaces the first option of the same code in place and stops"), c.P.pos(f.Pos()), "scan loop + split-graph atoms", why)
-			// after the scan: Add(o, option)
-			okAdd := false
-			for _, in := range l.done.Instrs {
-				if cl, isCall := in.(*ssa.Call); isCall && addFn != nil && cl.Call.StaticCallee() == addFn && len(cl.Call.Args) == 2 && cl.Call.Args[0] == ssa.Value(f.Params[0]) && cl.Call.Args[1] == opt {
-					okAdd = true
-				}
-				if st, isSt := in.(*ssa.Store); isSt && st.Addr == ssa.Value(f.Params[0]) {
-					if cl, isCall := st.Val.(*ssa.Call); isCall {
-						if base, e := singleAppendElem(cl); base != nil && ccIsRecvColl(f, base) && e == opt {
-							okAdd = true
+				r.Check(ok, rule, key(name, "replaces the first option of the same code in place and stops"), c.P.pos(f.Pos()), "scan loop + split-graph atoms", why)
+				// after the scan: Add(o, option)
+				okAdd := false
+				for _, in := range l.done.Instrs {
+					if cl, isCall := in.(*ssa.Call); isCall && addFn != nil && cl.Call.StaticCallee() == addFn && len(cl.Call.Args) == 2 && cl.Call.Args[0] == ssa.Value(f.Params[0]) && cl.Call.Args[1] == opt {
+						okAdd = true
+					}
+					if st, isSt := in.(*ssa.Store); isSt && st.Addr == ssa.Value(f.Params[0]) {
+						if cl, isCall := st.Val.(*ssa.Call); isCall {
+							if base, e := singleAppendElem(cl); base != nil && ccIsRecvColl(f, base) && e == opt {
+								okAdd = true
+							}
 						}
 					}
 				}
+				for _, rt := range returnsOf(f) {
+					if (rt.Block() == l.done || l.done.Dominates(rt.Block())) && rt.Block() != l.done {
+						okAdd = false // something conditional after the scan
+					}
+				}
+				r.Check(okAdd, rule, key(name, "appends the argument when no option of its code is present"), c.P.pos(f.Pos()), "Add(o, option) on the scan's exit", "an option of a new code is not (always) added")
 			}
-			for _, rt := range returnsOf(f) {
-				if (rt.Block() == l.done || l.done.Dominates(rt.Block())) && rt.Block() != l.done {
-					okAdd = false // something conditional after the scan
+		}
+
+		// ---- v6 wrappers
+		for _, w := range []struct{ typ, meth, target string }{
+			{"Message", "AddOption", "Add"}, {"Message", "UpdateOption", "Update"}, {"Message", "GetOption", "Get"}, {"Message", "GetOneOption", "GetOne"},
+			{"RelayMessage", "AddOption", "Add"}, {"RelayMessage", "UpdateOption", "Update"}, {"RelayMessage", "GetOption", "Get"}, {"RelayMessage", "GetOneOption", "GetOne"},
+		} {
+			f := ccFind(c, v6pkgPath, w.typ, w.meth)
+			name := "dhcpv6." + w.typ + "." + w.meth
+			if f == nil {
+				und(name, "not found")
+				continue
+			}
+			n++
+			ok, why := ccDelegates(c, f, ccFind(c, v6pkgPath, "Options", w.target), "Options")
+			r.Check(ok, rule, key(name, "delegates to Options."+w.target+" of its own option list with its own argument"), c.P.pos(f.Pos()), "single call on every path, result returned", why)
+		}
+
+	}
+	if v4on {
+		// ---- v4 map container
+		v4key := func(f *ssa.Function, v ssa.Value) bool {
+			x, ok := isCodeInvoke(v)
+			return ok && len(f.Params) > 1 && x == ssa.Value(f.Params[1])
+		}
+		if f := ccFind(c, v4pkg, "Options", "Get"); f == nil {
+			und("dhcpv4.Options.Get", "not found")
+		} else {
+			n++
+			ok, why := true, ""
+			rets := returnsOf(f)
+			if len(rets) == 0 {
+				ok, why = false, "no return"
+			}
+			for _, rt := range rets {
+				lk, isLk := rt.Results[0].(*ssa.Lookup)
+				if !isLk || lk.CommaOk || lk.X != ssa.Value(f.Params[0]) || !v4key(f, lk.Index) {
+					ok, why = false, "a return is not the receiver's entry for code.Code()"
 				}
 			}
-			r.Check(okAdd, rule, key(name, "appends the argument when no option of its code is present"), c.P.pos(f.Pos()), "Add(o, option) on the scan's exit", "an option of a new code is not (always) added")
+			r.Check(ok, rule, key("dhcpv4.Options.Get", "returns the map entry of the argument's code"), c.P.pos(f.Pos()), "every return is o[code.Code()]", why)
+		}
+		if f := ccFind(c, v4pkg, "Options", "Has"); f == nil {
+			und("dhcpv4.Options.Has", "not found")
+		} else {
+			n++
+			ok, why := true, ""
+			for _, rt := range returnsOf(f) {
+				ex, isEx := rt.Results[0].(*ssa.Extract)
+				var lk *ssa.Lookup
+				if isEx && ex.Index == 1 {
+					lk, _ = ex.Tuple.(*ssa.Lookup)
+				}
+				if lk == nil || !lk.CommaOk || lk.X != ssa.Value(f.Params[0]) || !v4key(f, lk.Index) {
+					ok, why = false, "a return is not the presence bit of the receiver's lookup of code.Code()"
+				}
+			}
+			r.Check(ok, rule, key("dhcpv4.Options.Has", "reports presence of the key, whatever the value"), c.P.pos(f.Pos()), "every return is the comma-ok of o[code.Code()]", why)
+		}
+		if f := ccFind(c, v4pkg, "Options", "Del"); f == nil {
+			und("dhcpv4.Options.Del", "not found")
+		} else {
+			n++
+			var del *ssa.Call
+			cnt := 0
+			allInstrs(f, func(in ssa.Instruction) {
+				if cl, ok := in.(*ssa.Call); ok && isBuiltinCall(cl.Common(), "delete") {
+					del = cl
+					cnt++
+				}
+			})
+			ok := cnt == 1 && del.Call.Args[0] == ssa.Value(f.Params[0]) && v4key(f, del.Call.Args[1]) && dominatesAllReturns(f, del.Block())
+			r.Check(ok, rule, key("dhcpv4.Options.Del", "removes the entry of the argument's code on every path"), c.P.pos(f.Pos()), "delete(o, code.Code()) dominates every return", "the entry is not (always) removed, or another key is")
+		}
+		for _, w := range []struct{ meth, target string }{{"GetOneOption", "Get"}, {"DeleteOption", "Del"}} {
+			f := ccFind(c, v4pkg, "DHCPv4", w.meth)
+			name := "dhcpv4.DHCPv4." + w.meth
+			if f == nil {
+				und(name, "not found")
+				continue
+			}
+			n++
+			ok, why := ccDelegates(c, f, ccFind(c, v4pkg, "Options", w.target), "Options")
+			r.Check(ok, rule, key(name, "delegates to Options."+w.target+" of its own option map with its own argument"), c.P.pos(f.Pos()), "single call, result returned; skipped only for a nil map", why)
 		}
 	}
-
-	// ---- v6 wrappers
-	for _, w := range []struct{ typ, meth, target string }{
-		{"Message", "AddOption", "Add"}, {"Message", "UpdateOption", "Update"}, {"Message", "GetOption", "Get"}, {"Message", "GetOneOption", "GetOne"},
-		{"RelayMessage", "AddOption", "Add"}, {"RelayMessage", "UpdateOption", "Update"}, {"RelayMessage", "GetOption", "Get"}, {"RelayMessage", "GetOneOption", "GetOne"},
-	} {
-		f := ccFind(c, v6pkgPath, w.typ, w.meth)
-		name := "dhcpv6." + w.typ + "." + w.meth
-		if f == nil {
-			und(name, "not found")
+	// ---- code lists: dhcpv6.OptionCodes (option request option), dhcpv4.OptionCodeList (parameter request list)
+	for _, w := range []struct{ pkg, typ, contains string }{{v6pkgPath, "OptionCodes", "Contains"}, {v4pkg, "OptionCodeList", "Has"}} {
+		short := "dhcpv6."
+		if w.pkg == v4pkg {
+			short = "dhcpv4."
+		}
+		if (w.pkg == v4pkg && !v4on) || (w.pkg != v4pkg && !v6on) {
 			continue
 		}
-		n++
-		ok, why := ccDelegates(c, f, ccFind(c, v6pkgPath, "Options", w.target), "Options")
-		r.Check(ok, rule, key(name, "delegates to Options."+w.target+" of its own option list with its own argument"), c.P.pos(f.Pos()), "single call on every path, result returned", why)
-	}
-
-	// ---- v4 map container
-	v4key := func(f *ssa.Function, v ssa.Value) bool {
-		x, ok := isCodeInvoke(v)
-		return ok && len(f.Params) > 1 && x == ssa.Value(f.Params[1])
-	}
-	if f := ccFind(c, v4pkg, "Options", "Get"); f == nil {
-		und("dhcpv4.Options.Get", "not found")
-	} else {
-		n++
-		ok, why := true, ""
-		rets := returnsOf(f)
-		if len(rets) == 0 {
-			ok, why = false, "no return"
+		cf := ccFind(c, w.pkg, w.typ, w.contains)
+		if cf == nil {
+			und(short+w.typ+"."+w.contains, "not found")
+		} else {
+			n++
+			ok, why := ccContainsRule(c, cf)
+			r.Check(ok, rule, key(short+w.typ+"."+w.contains, "true exactly when an element equals the argument"), c.P.pos(cf.Pos()), "scan loop + split-graph atoms", why)
 		}
-		for _, rt := range rets {
-			lk, isLk := rt.Results[0].(*ssa.Lookup)
-			if !isLk || lk.CommaOk || lk.X != ssa.Value(f.Params[0]) || !v4key(f, lk.Index) {
-				ok, why = false, "a return is not the receiver's entry for code.Code()"
-			}
+		af := ccFind(c, w.pkg, w.typ, "Add")
+		if af == nil {
+			und(short+w.typ+".Add", "not found")
+		} else if cf != nil {
+			n++
+			ok, why := ccAddUniqueRule(c, af, cf)
+			r.Check(ok, rule, key(short+w.typ+".Add", "appends each new code at the end, keeps the codes already present where they are"), c.P.pos(af.Pos()), "store of append(list, code) exactly under !"+w.contains+"(code)", why)
 		}
-		r.Check(ok, rule, key("dhcpv4.Options.Get", "returns the map entry of the argument's code"), c.P.pos(f.Pos()), "every return is o[code.Code()]", why)
-	}
-	if f := ccFind(c, v4pkg, "Options", "Has"); f == nil {
-		und("dhcpv4.Options.Has", "not found")
-	} else {
-		n++
-		ok, why := true, ""
-		for _, rt := range returnsOf(f) {
-			ex, isEx := rt.Results[0].(*ssa.Extract)
-			var lk *ssa.Lookup
-			if isEx && ex.Index == 1 {
-				lk, _ = ex.Tuple.(*ssa.Lookup)
-			}
-			if lk == nil || !lk.CommaOk || lk.X != ssa.Value(f.Params[0]) || !v4key(f, lk.Index) {
-				ok, why = false, "a return is not the presence bit of the receiver's lookup of code.Code()"
-			}
-		}
-		r.Check(ok, rule, key("dhcpv4.Options.Has", "reports presence of the key, whatever the value"), c.P.pos(f.Pos()), "every return is the comma-ok of o[code.Code()]", why)
-	}
-	if f := ccFind(c, v4pkg, "Options", "Del"); f == nil {
-		und("dhcpv4.Options.Del", "not found")
-	} else {
-		n++
-		var del *ssa.Call
-		cnt := 0
-		allInstrs(f, func(in ssa.Instruction) {
-			if cl, ok := in.(*ssa.Call); ok && isBuiltinCall(cl.Common(), "delete") {
-				del = cl
-				cnt++
-			}
-		})
-		ok := cnt == 1 && del.Call.Args[0] == ssa.Value(f.Params[0]) && v4key(f, del.Call.Args[1]) && dominatesAllReturns(f, del.Block())
-		r.Check(ok, rule, key("dhcpv4.Options.Del", "removes the entry of the argument's code on every path"), c.P.pos(f.Pos()), "delete(o, code.Code()) dominates every return", "the entry is not (always) removed, or another key is")
-	}
-	for _, w := range []struct{ meth, target string }{{"GetOneOption", "Get"}, {"DeleteOption", "Del"}} {
-		f := ccFind(c, v4pkg, "DHCPv4", w.meth)
-		name := "dhcpv4.DHCPv4." + w.meth
-		if f == nil {
-			und(name, "not found")
-			continue
-		}
-		n++
-		ok, why := ccDelegates(c, f, ccFind(c, v4pkg, "Options", w.target), "Options")
-		r.Check(ok, rule, key(name, "delegates to Options."+w.target+" of its own option map with its own argument"), c.P.pos(f.Pos()), "single call, result returned; skipped only for a nil map", why)
 	}
 	r.Count(rule, n)
-	r.Expect(rule, 18)
+	want := 0
+	if v6on {
+		want += 15
+	}
+	if v4on {
+		want += 7
+	}
+	r.Expect(rule, want)
+}
+
+// ccContainsRule: f scans its receiver and returns true on (and only on) an element equal to the argument, false after the scan
+func ccContainsRule(c *Ctx, f *ssa.Function) (bool, string) {
+	sx := c.Sx()
+	ls := findScanLoops(f)
+	if len(ls) != 1 || !ccIsRecvColl(f, ls[0].coll) {
+		return false, "not one ascending scan of the receiver (idiom not recognised)"
+	}
+	l := ls[0]
+	el := l.elems(sx)
+	isEq := func(as []atomFact, want bool) bool {
+		for _, a := range as {
+			bo, ok := a.v.(*ssa.BinOp)
+			if !ok || (bo.Op != token.EQL && bo.Op != token.NEQ) {
+				continue
+			}
+			arg := ssa.Value(f.Params[1])
+			if !((el[bo.X] && bo.Y == arg) || (el[bo.Y] && bo.X == arg)) {
+				continue
+			}
+			if ((bo.Op == token.EQL) == a.val) == want {
+				return true
+			}
+		}
+		return false
+	}
+	start := sNodeOf(l.hdr, l.body)
+	exits := l.sideExits()
+	if len(exits) == 0 {
+		return false, "no return inside the scan"
+	}
+	blocked := map[*ssa.BasicBlock]bool{}
+	for _, e := range exits {
+		rt, isRet := e.To.Instrs[len(e.To.Instrs)-1].(*ssa.Return)
+		if !isRet || len(rt.Results) != 1 {
+			return false, "the scan is left other than by returning"
+		}
+		if b, isB := boolConst(rt.Results[0]); !isB || !b {
+			return false, "the scan returns something other than true"
+		}
+		if !mustPassAtomsFrom(start, e.To, func(as []atomFact) bool { return isEq(as, true) }, map[*ssa.BasicBlock]bool{l.hdr: true}) {
+			return false, "true is returned for an element that differs from the argument"
+		}
+		blocked[e.To] = true
+	}
+	if !mustPassAtomsFrom(start, l.hdr, func(as []atomFact) bool { return isEq(as, false) }, blocked) {
+		return false, "the scan continues past an element equal to the argument"
+	}
+	for _, rt := range returnsOf(f) {
+		if l.done == rt.Block() || l.done.Dominates(rt.Block()) {
+			if b, isB := boolConst(rt.Results[0]); !isB || b {
+				return false, "the result after an unsuccessful scan is not false"
+			}
+		}
+	}
+	return true, ""
+}
+
+// ccAddUniqueRule: f stores append(*recv, code) for a code of its argument(s) exactly when contains(*recv, code) is false
+func ccAddUniqueRule(c *Ctx, f, contains *ssa.Function) (bool, string) {
+	sx := c.Sx()
+	sts := ccStoresToRecv(f)
+	if len(sts) != 1 {
+		return false, "not exactly one store to the receiver"
+	}
+	st := sts[0]
+	cl, isCall := st.Val.(*ssa.Call)
+	if !isCall {
+		return false, "the stored value is not append(list, code)"
+	}
+	base, el := singleAppendElem(cl)
+	if base == nil || !ccIsRecvColl(f, base) {
+		return false, "the stored value is not append(list, code) on the receiver's list"
+	}
+	// the code: the parameter itself, or the element of a scan over the (variadic) parameter
+	var from sNode
+	var back *ssa.BasicBlock
+	if el == ssa.Value(f.Params[1]) {
+		from = sNode{f.Blocks[0], -1}
+	} else {
+		ls := findScanLoops(f)
+		if len(ls) != 1 || ls[0].coll != ssa.Value(f.Params[1]) || !ls[0].elems(sx)[el] {
+			return false, "the appended code is neither the argument nor an element of a scan over the arguments"
+		}
+		if len(ls[0].sideExits()) > 0 {
+			return false, "the scan over the arguments can stop early"
+		}
+		from, back = sNodeOf(ls[0].hdr, ls[0].body), ls[0].hdr
+	}
+	has := func(as []atomFact, want bool) bool {
+		for _, a := range as {
+			cc, ok := a.v.(*ssa.Call)
+			if !ok || cc.Call.StaticCallee() != contains || len(cc.Call.Args) != 2 {
+				continue
+			}
+			if !ccIsRecvColl(f, cc.Call.Args[0]) || cc.Call.Args[1] != el {
+				continue
+			}
+			if a.val == want {
+				return true
+			}
+		}
+		return false
+	}
+	blk := map[*ssa.BasicBlock]bool{}
+	if back != nil {
+		blk[back] = true
+	}
+	if st.Block() == from.b {
+		return false, "the code is appended without testing whether it is present"
+	}
+	if !mustPassAtomsFrom(from, st.Block(), func(as []atomFact) bool { return has(as, false) }, blk) {
+		return false, "a code can be appended although it is already present (or under another condition)"
+	}
+	skipTo := back
+	if skipTo == nil {
+		// every return reached without the store requires "present"
+		for _, rb := range returnBlocks(f) {
+			if rb == st.Block() || st.Block().Dominates(rb) {
+				continue
+			}
+			if !mustPassAtomsFrom(from, rb, func(as []atomFact) bool { return has(as, true) }, map[*ssa.BasicBlock]bool{st.Block(): true}) {
+				return false, "a code that is not present can be left out"
+			}
+		}
+	} else if !mustPassAtomsFrom(from, skipTo, func(as []atomFact) bool { return has(as, true) }, map[*ssa.BasicBlock]bool{st.Block(): true}) {
+		return false, "a code that is not present can be left out"
+	}
+	return true, ""
 }
 
 // ccDelegates: f calls target exactly once with (f's receiver's field `field`, f's own parameter), returns the call's
